@@ -152,10 +152,7 @@ HARNESSES = [
          funcs=["vf_real_main", "try_open_fs", "check_mount"],
          configs=[{"ERR": e} for e in ("EXT2_ET_BAD_MAGIC", "EXT2_ET_CORRUPT_SUPERBLOCK", "EXT2_ET_SB_CSUM_INVALID",
                                         "EXT2_ET_BAD_DESC_SIZE", "EBUSY", "EROFS", "EXT2_ET_SHORT_READ")] +
-                 [{"ERR": "EXT2_ET_UNSUPP_FEATURE", "FEAT": 0}, {"ERR": "EXT2_ET_UNSUPP_FEATURE", "FEAT": "0x40000000"}] +
-                 # C20: the -b block-size probe of try_open_fs hits at 1024 << PROBE_K (C13 quick: the two ends; mirror all 7 into C20)
-                 [{"ERR": "EXT2_ET_BAD_MAGIC", "PROBE_K": 6}, {"ERR": "EXT2_ET_BAD_MAGIC", "PROBE_K": 0}] +
-                 [{"ERR": "EXT2_ET_BAD_MAGIC", "PROBE_K": k, "_tier": "thorough"} for k in (1, 2, 3, 4, 5)],
+                 [{"ERR": "EXT2_ET_UNSUPP_FEATURE", "FEAT": 0}, {"ERR": "EXT2_ET_UNSUPP_FEATURE", "FEAT": "0x40000000"}],
          unwind=4, unwindset=["try_open_fs.0:9", "reserve_stdio_fds.0:3"] + ["vf_real_main.%d:34" % i for i in range(4, 16)],
          backends=["default", "kissat"],
          bound="ctx->options: every word PRS() can produce; -b superblock, -B blocksize, interactive, -z undo file, mount flags, "
@@ -219,6 +216,13 @@ HARNESSES = [
          bound="every global PRS() leaves behind symbolic (noaction 0..2, quiet, verbose, discard, dev_size, cflag, super_only, "
                "lazy_itable_init, undo file, journal device/size, bad-blocks file, uuid/os/label/mount dir/src root present or not, "
                "fs_param features/flags), 4 KiB blocks, <= 1.5M blocks; results of every non-writing step symbolic"),
+    dict(name="probe_try_open", src="probe_try_open.c",
+         funcs=["try_open_fs"],
+         configs=[{"PROBE_K": k} for k in (6, 0, 1, 2, 3, 4, 5, 7)] + [{"WITH_B": None}],
+         unwind=4, unwindset=["try_open_fs.0:9"],
+         backends=["default", "kissat"],
+         bound="ctx->superblock 1..2^31-1 and the open flags symbolic; probe hit at 1024 << K for K = 0..6 or never (K = 7), one query each; "
+               "result of the real open symbolic; -B given (one query)"),
 ]
 HARNESSES += _e2undo("C13")   # the real main() of misc/e2undo.c (sources in harness/E2UNDO)
 
